@@ -21,12 +21,12 @@ from . import AnalysisError
 _SPECS = []
 
 
-def M(prop, name, rel, pattern, repl, expect, count=1, flags=0):
-    _SPECS.append({"prop": prop, "name": name, "rel": rel, "pattern": pattern, "repl": repl, "expect": expect, "twin": False, "count": count, "flags": flags})
+def M(prop, name, rel, pattern, repl, expect, count=1, flags=0, also=()):
+    _SPECS.append({"prop": prop, "name": name, "rel": rel, "pattern": pattern, "repl": repl, "expect": expect, "twin": False, "count": count, "flags": flags, "also": list(also)})
 
 
-def T(prop, name, rel, pattern, repl, count=1, flags=0):
-    _SPECS.append({"prop": prop, "name": name, "rel": rel, "pattern": pattern, "repl": repl, "expect": None, "twin": True, "count": count, "flags": flags})
+def T(prop, name, rel, pattern, repl, count=1, flags=0, also=()):
+    _SPECS.append({"prop": prop, "name": name, "rel": rel, "pattern": pattern, "repl": repl, "expect": None, "twin": True, "count": count, "flags": flags, "also": list(also)})
 
 
 F = "iodata/formats/"
@@ -108,6 +108,9 @@ M("C07", "loaderror-drop-file", F + "charmm.py", r'"Title section of CRD has no 
 M("C07", "loop-without-consumption", F + "wfn.py", r"    while len\(section\) < n:\n        line = next\(lit\)\n", "    line = next(lit)\n    while len(section) < n:\n", "C07-R4")
 M("C07", "drop-validator", "iodata/iodata.py", r"        validator=attrs\.validators\.optional\(validate_shape\(None, 4\)\),\n", "", "C07-R5")
 M("C07", "lineno-skip-on-stack", "iodata/utils.py", r"        self\.lineno \+= 1\n        return self\.stack\.pop\(\) if self\.stack else next\(self\.fh\)", "        if self.stack:\n            return self.stack.pop()\n        self.lineno += 1\n        return next(self.fh)", "C07-R6")
+M("C07", "molden-optional-header-keys", F + "molden.py", r'occ = float\(info\["occup"\]\)', 'occ = float(info.get("occup", 0.0))', "C07-R4", also=[(r'energy = float\(info\["ene"\]\)', 'energy = float(info.get("ene", 0.0))'), (r'if info\["spin"\]\.strip', 'if info.get("spin", "alpha").strip')])
+M("C07", "pdb-conditional-append", F + "pdb.py", r"            occupancies\.append\(occupancy\)\n", "            if occupancy is not None:\n                occupancies.append(occupancy)\n", "C07-R7")
+T("C07", "molden-one-key-optional", F + "molden.py", r'energy = float\(info\["ene"\]\)', 'energy = float(info.get("ene", 0.0))')
 T("C07", "rename-lit", "iodata/api.py", r"\blit\b", "line_iter", count=0)
 # ----------------------------------------------------------------------------- C08
 M("C08", "open-before-check", "iodata/api.py", r'    format_module = _select_format_module\(filename, "dump_one", fmt\)\n    try:\n        _check_required\(filename, data, format_module\.dump_one\)\n', '    format_module = _select_format_module(filename, "dump_one", fmt)\n    open(filename, "w").close()\n    try:\n        _check_required(filename, data, format_module.dump_one)\n', "C08-R1")
@@ -208,6 +211,44 @@ T("C20", "reorder-assignments", "iodata/utils.py", r"(    four_index_object\[i2,
 T("C20", "reorder-strtobool", "iodata/utils.py", r'(    "y": True,\n)(    "yes": True,\n)', r"\2\1")
 
 
+# ----------------------------------------------------------------------------- additions (second round)
+M("C01", "molden-tag-5d10f-as-5d", F + "molden.py", r'f\.write\("\[5D10F\]\\n"\)', 'f.write("[5D]\\\\n")', "C01-R8")
+M("C01", "molden-reader-5d-only-d", F + "molden.py", r'            pure_angmoms\.add\(2\)\n            pure_angmoms\.add\(3\)\n', '            pure_angmoms.add(2)\n', "C01-R8")
+T("C01", "molden-tags-elif-to-nested", F + "molden.py", r'    elif angmom_kinds\[3\] == "p":\n        f\.write\("\[7F\]\\n"\)', '    else:\n        if angmom_kinds[3] == "p":\n            f.write("[7F]\\\\n")')
+M("C02", "xyz-dump-many-drops-columns", F + "xyz.py", r"dump_one\(f, data, atom_columns\)", "dump_one(f, data)", "C02-R9")
+M("C02", "fchk-writer-no-transpose", F + "fchk.py", r'_dump_real_arrays\("Alpha MO coefficients", coeffsa\.transpose\(\)\.flatten\(\), f\)', '_dump_real_arrays("Alpha MO coefficients", coeffsa.flatten(), f)', "C02-R10")
+M("C02", "fchk-reader-no-transpose", F + "fchk.py", r'np\.copy\(fchk\["Beta MO coefficients"\]\.reshape\(norbb, nbasis\)\.T\)', 'np.copy(fchk["Beta MO coefficients"].reshape(nbasis, norbb))', "C02-R10")
+M("C02", "json-geometry-fortran-order", F + "json_qcschema.py", r'list\(data\.atcoords\.flatten\(\)\)', 'list(data.atcoords.flatten(order="F"))', "C02-R10")
+M("C02", "cube-nditer", F + "cube.py", r"for value in cube_data\.flat:", "for value in np.nditer(cube_data):", "C02-R11")
+T("C02", "cube-ravel-instead-of-flat", F + "cube.py", r"for value in cube_data\.flat:", "for value in cube_data.ravel():")
+T("C02", "fchk-writer-T-ravel", F + "fchk.py", r'coeffsa\.transpose\(\)\.flatten\(\)', 'coeffsa.T.ravel()')
+M("C03", "extxyz-lattice-fortran", F + "extxyz.py", r"\.reshape\(\[3, 3\]\) \* angstrom", '.reshape([3, 3], order="F") * angstrom', "C03-R7")
+M("C03", "wfx-mo-c-order", F + "wfx.py", r'result\["mo_coeffs"\]\.reshape\(result\["num_primitives"\], -1, order="F"\)', 'result["mo_coeffs"].reshape(result["num_primitives"], -1)', "C03-R7")
+M("C03", "molden-coeffs-no-transpose", F + "molden.py", r"    coeffsa = np\.array\(coeffsa\)\.T\n", "    coeffsa = np.array(coeffsa)\n", "C03-R7")
+M("C03", "vasp-direct-transposed-cell", F + "chgcar.py", r"np\.dot\(np\.array\(atcoords\), cellvecs\)", "np.dot(np.array(atcoords), cellvecs.T)", "C03-R7")
+M("C03", "gamess-hessian-by-label", F + "gamess.py", r"            tmp\[counter\] = float\(line\[j \* 15 : \(j \+ 1\) \* 15\]\)", "            hessian[int(line[:2]) - 1, j] = float(line[j * 15 : (j + 1) * 15])", "C03-R8", also=[(r"        line = line\[5:-1\]\n", "        lab = line\n        line = line[5:-1]\n")])
+T("C03", "wfx-mo-transpose-instead-of-order", F + "wfx.py", r'result\["mo_coeffs"\]\.reshape\(result\["num_primitives"\], -1, order="F"\)', 'result["mo_coeffs"].reshape(-1, result["num_primitives"]).T')
+M("C04", "vasp-mode-drop-k", F + "chgcar.py", r'cartesian = line\[0\]\.lower\(\) in \["c", "k"\]', 'cartesian = line[0].lower() in ["c"]', "C04-R4")
+M("C04", "vasp-mode-add-d", F + "chgcar.py", r'cartesian = line\[0\]\.lower\(\) in \["c", "k"\]', 'cartesian = line[0].lower() not in ["d"]', "C04-R4")
+T("C04", "vasp-mode-string-membership", F + "chgcar.py", r'cartesian = line\[0\]\.lower\(\) in \["c", "k"\]', 'cartesian = line[0] in "cCkK"')
+M("C04", "cube-cellvecs-wrong-axis", F + "cube.py", r"cellvecs = axes \* shape\.reshape\(-1, 1\)", "cellvecs = axes * shape", "C04-R5")
+M("C04", "vasp-axes-wrong-axis", F + "chgcar.py", r"axes=cellvecs / shape\.reshape\(-1, 1\)", "axes=cellvecs / shape", "C04-R5")
+T("C04", "cube-cellvecs-newaxis", F + "cube.py", r"cellvecs = axes \* shape\.reshape\(-1, 1\)", "cellvecs = axes * shape[:, np.newaxis]")
+M("C05", "normalize-skips-uncontracted", F + "molden.py", r"    for shell in obasis\.shells:\n        shell_obasis = MolecularBasis\(", "    for shell in obasis.shells:\n        if shell.nexp == 1:\n            fixed_shells.append(copy.deepcopy(shell))\n            continue\n        shell_obasis = MolecularBasis(", "C05-R7")
+M("C06", "screening-last-exponent", "iodata/overlap.py", r"a0_min = np\.min\(shell0\.exponents\)", "a0_min = shell0.exponents[-1]", "C06-R6")
+T("C06", "screening-min-method", "iodata/overlap.py", r"a0_min = np\.min\(shell0\.exponents\)", "a0_min = shell0.exponents.min()")
+M("C12", "spinpol-other-predicate", "iodata/orbitals.py", r"                if \(self\.occs == self\.occs\.astype\(int\)\)\.all\(\):\n                    # restricted open-shell HF/KS\n                    nbeta", "                if np.isclose(self.occs, np.rint(self.occs)).all():\n                    # restricted open-shell HF/KS\n                    nbeta", "C12-R3")
+M("C12", "nbasis-pure-from-p", "iodata/basis.py", r'kind == "p" and angmom >= 2', 'kind == "p" and angmom >= 1', "C12-R6")
+T("C12", "nbasis-guard-rewritten", "iodata/basis.py", r'kind == "p" and angmom >= 2', 'kind == "p" and angmom > 1')
+M("C13", "xyz-zip-counted-loop", F + "xyz.py", r"    for iatom in range\(natom\):\n        words = next\(lit\)\.split\(\)", "    for iatom, line in zip(range(natom), lit):\n        words = line.split()", "C13-R8")
+M("C16", "lineiterator-class-level-stack", "iodata/utils.py", r"class LineIterator:\n", "class LineIterator:\n    stack: list = []\n", "C16-R3")
+M("C18", "main-swallows-loaderror", "iodata/__main__.py", r"    convert\(args\.input, args\.output, args\.many, args\.infmt, args\.outfmt, args\.allow_changes\)\n", "    try:\n        convert(args.input, args.output, args.many, args.infmt, args.outfmt, args.allow_changes)\n    except Exception as exc:\n        print(exc)\n", "C18-R3")
+M("C18", "main-returns-status-guard-discards", "iodata/__main__.py", r"    convert\(args\.input, args\.output, args\.many, args\.infmt, args\.outfmt, args\.allow_changes\)\n", "    try:\n        convert(args.input, args.output, args.many, args.infmt, args.outfmt, args.allow_changes)\n    except Exception as exc:\n        print(exc)\n        return 1\n    return 0\n", "C18-R3")
+T("C18", "main-reraises", "iodata/__main__.py", r"    convert\(args\.input, args\.output, args\.many, args\.infmt, args\.outfmt, args\.allow_changes\)\n", "    try:\n        convert(args.input, args.output, args.many, args.infmt, args.outfmt, args.allow_changes)\n    except Exception:\n        raise\n")
+M("C19", "write-input-narrow-handler", "iodata/api.py", r"            input_module\.write_input\(fh, data, template, atom_line, \*\*kwargs\)\n        except Exception as exc:", "            input_module.write_input(fh, data, template, atom_line, **kwargs)\n        except (LookupError, TypeError, ValueError) as exc:", "C19-R6")
+M("C20", "volume-xy-block", "iodata/utils.py", r"return np\.linalg\.norm\(np\.cross\(cellvecs\[0\], cellvecs\[1\]\)\)", "return abs(np.linalg.det(cellvecs[:, :2]))", "C20-R3")
+
+
 def _run_one(args):
     spec, repo = args
     from .cli import run_property
@@ -222,6 +263,10 @@ def _run_one(args):
     new, n = re.subn(spec["pattern"], spec["repl"], src, count=spec["count"], flags=spec["flags"])
     if n == 0 or new == src:
         return spec, "not-applicable", "anchor not found", 0.0
+    for pat2, repl2 in spec.get("also", ()):
+        new, n2 = re.subn(pat2, repl2, new, count=1, flags=spec["flags"])
+        if n2 == 0:
+            return spec, "not-applicable", "secondary anchor not found", 0.0
     try:
         ast.parse(new)
     except SyntaxError as exc:
